@@ -361,19 +361,30 @@ where
 }
 
 ///
-fn cancel_tx_log_entry<'a, L, C, K>(
+/// Cancels the log entries the given outputs belong to and, in the same database batch, saves the
+/// repaired records in `save` and deletes those in `delete`: a crash half way must not leave a
+/// reserved output that names a cancelled entry
+fn cancel_tx_log_entries<'a, L, C, K>(
 	wallet_inst: Arc<Mutex<Box<dyn WalletInst<'a, L, C, K>>>>,
 	keychain_mask: Option<&SecretKey>,
-	output: &OutputData,
+	save: &[OutputData],
+	delete: &[OutputData],
 ) -> Result<(), Error>
 where
 	L: WalletLCProvider<'a, C, K>,
 	C: NodeClient + 'a,
 	K: Keychain + 'a,
 {
-	let parent_key_id = output.key_id.parent_path();
+	if save.is_empty() && delete.is_empty() {
+		return Ok(());
+	}
 	wallet_lock!(wallet_inst, w);
-	let updated_tx_entry = if output.tx_log_entry.is_some() {
+	let mut updated_tx_entries = vec![];
+	for output in save.iter().chain(delete.iter()) {
+		if output.tx_log_entry.is_none() {
+			continue;
+		}
+		let parent_key_id = output.key_id.parent_path();
 		let entries = updater::retrieve_txs(
 			&mut **w,
 			output.tx_log_entry,
@@ -389,16 +400,18 @@ where
 				TxLogEntryType::TxReceived => entry.tx_type = TxLogEntryType::TxReceivedCancelled,
 				_ => {}
 			}
-			Some(entry)
-		} else {
-			None
+			updated_tx_entries.push((entry, parent_key_id));
 		}
-	} else {
-		None
-	};
+	}
 	let mut batch = w.batch(keychain_mask)?;
-	if let Some(t) = updated_tx_entry {
+	for (t, parent_key_id) in updated_tx_entries {
 		batch.save_tx_log_entry(t, &parent_key_id)?;
+	}
+	for o in save {
+		batch.save(o.clone())?;
+	}
+	for o in delete {
+		batch.delete(&o.key_id, &o.mmr_index)?;
 	}
 	batch.commit()?;
 	Ok(())
@@ -557,11 +570,7 @@ where
 		}
 		o.status = OutputStatus::Unspent;
 		// any transactions associated with this should be cancelled
-		cancel_tx_log_entry(wallet_inst.clone(), keychain_mask, &o)?;
-		wallet_lock!(wallet_inst, w);
-		let mut batch = w.batch(keychain_mask)?;
-		batch.save(o)?;
-		batch.commit()?;
+		cancel_tx_log_entries(wallet_inst.clone(), keychain_mask, &[o], &[])?;
 	}
 
 	// Restore missing outputs, adding transaction for it back to the log
@@ -584,6 +593,8 @@ where
 	}
 
 	if delete_unconfirmed {
+		let mut to_unlock = vec![];
+		let mut to_delete = vec![];
 		// Unlock locked outputs
 		for m in locked_outs.into_iter() {
 			let mut o = m.0;
@@ -596,11 +607,7 @@ where
 				let _ = s.send(StatusMessage::Scanning(msg, 99));
 			}
 			o.status = OutputStatus::Unspent;
-			cancel_tx_log_entry(wallet_inst.clone(), keychain_mask, &o)?;
-			wallet_lock!(wallet_inst, w);
-			let mut batch = w.batch(keychain_mask)?;
-			batch.save(o)?;
-			batch.commit()?;
+			to_unlock.push(o);
 		}
 
 		// only the active account was refreshed above: an Unconfirmed record of another account
@@ -622,12 +629,10 @@ where
 			if let Some(ref s) = status_send_channel {
 				let _ = s.send(StatusMessage::Scanning(msg, 99));
 			}
-			cancel_tx_log_entry(wallet_inst.clone(), keychain_mask, &o)?;
-			wallet_lock!(wallet_inst, w);
-			let mut batch = w.batch(keychain_mask)?;
-			batch.delete(&o.key_id, &o.mmr_index)?;
-			batch.commit()?;
+			to_delete.push(o);
 		}
+		// one batch for all of it: a pending transaction is released as a whole or not at all
+		cancel_tx_log_entries(wallet_inst.clone(), keychain_mask, &to_unlock, &to_delete)?;
 	}
 
 	// restore labels, account paths and child derivation indices
